@@ -4,9 +4,9 @@ import native
 K, OTHER = 5, 6
 
 
-def run_native(pl, hint):
+def run_native(pl, hint, router='KeyPersistentRouting'):
     ws = ';'.join('%d:%s:%s' % (w, '.'.join(map(str, q)), '.'.join(map(str, c))) for w, (q, c) in pl)
-    out, _l, rc, err = native.run('route_kp', workers=ws, key=K, pool_size=3, hint=hint, timeout=30)
+    out, _l, rc, err = native.run('route_kp', workers=ws, key=K, pool_size=3, hint=hint, router='sticky' if 'Sticky' in router else 'key_persistent', timeout=30)
     if rc != 0:
         raise RuntimeError('native route_kp failed: ' + err[-300:])
     d = dict(x.split('~', 1) for x in out['out'].split(';'))
@@ -18,8 +18,32 @@ def run_native(pl, hint):
     return res, books
 
 
-def evaluate(pl, hint):
-    res, after = run_native(pl, hint)
+def parse_books(v):
+    q, c, p = v.split('/')
+    return ([tuple(map(int, x.split(':'))) for x in q.split('+') if x], [int(x) for x in c.split('+') if x], {int(a): int(b) for a, b in (x.split(':') for x in p.split('+') if x)})
+
+
+def dead_window(router):
+    """two jobs of one key routed while worker 0 is dead but not yet replaced, then the replacement: never two of them in flight on two workers, and the
+    first submitted runs first"""
+    out, _l, rc, err = native.run('dead_window', router='sticky' if 'Sticky' in router else 'key_persistent', timeout=30)
+    if rc != 0:
+        raise RuntimeError('native dead_window failed: ' + err[-300:])
+    bad = []
+    steps = dict(x.split('~', 1) for x in out['out'].split(';'))
+    for label in ('first', 'second', 'replaced'):
+        w0, w1 = [parse_books(v) for v in steps[label].split('|')]
+        holders = [i for i, (q, c, p) in enumerate((w0, w1)) if K in c or K in [k for k, _ in q]]
+        flying = [i for i, (q, c, p) in enumerate((w0, w1)) if K in c]
+        if len(flying) > 1:
+            bad.append('%s: key %d is in flight on workers %s at the same time' % (label, K, flying))
+        if len(holders) > 1:
+            bad.append('%s: key %d is pending on workers %s' % (label, K, holders))
+    return bad, steps
+
+
+def evaluate(pl, hint, router='KeyPersistentRouting'):
+    res, after = run_native(pl, hint, router)
     before = {w: (list(q), list(c)) for w, (q, c) in pl}
     bad = []
     for key in (K, OTHER):
@@ -51,7 +75,16 @@ def evaluate(pl, hint):
     return bad, {'res': res, 'after': after}
 
 
-def replay(pl, hint):
-    bad, obs = evaluate(pl, hint)
-    return {'replayed': bool(bad), 'detail': 'native key-persistent route of key %d on %s hint %s -> %s ; violated %s' % (K, pl, hint, obs, bad),
-            'replay': {'which': 'exclusive', 'pool': [[w, [list(q), list(c)]] for w, (q, c) in pl], 'hint': hint}}
+def replay(pl, hint, router='KeyPersistentRouting'):
+    bad, obs = evaluate(pl, hint, router)
+    wb, steps = dead_window(router)
+    bad += ['dead-worker window: ' + x for x in wb]
+    return {'replayed': bool(bad), 'detail': 'native %s route of key %d on %s hint %s -> %s ; dead-worker window %s ; violated %s' % (router, K, pl, hint, obs, steps, bad),
+            'replay': {'which': 'exclusive', 'pool': [[w, [list(q), list(c)]] for w, (q, c) in pl], 'hint': hint, 'router': router}}
+
+
+def battery():
+    bad = []
+    for r in ('KeyPersistentRouting', 'StickyQueuerRouting'):
+        bad += ['%s: %s' % (r, x) for x in dead_window(r)[0]]
+    return bad, 2
